@@ -67,6 +67,9 @@ def _merge_stubs_members(obj: Module | Class, stubs: Module | Class) -> None:
                 # Devs usually declare stubs at the public location of the corresponding object,
                 # not the canonical one. Therefore, we must allow merging stubs into the target of an alias,
                 # as long as the stub and target are of the same kind.
+                if obj_member.is_alias:
+                    # Merge into the target itself: members set on an alias are lost.
+                    obj_member = obj_member.final_target
                 if obj_member.kind is not stub_member.kind:
                     logger.debug(
                         "Cannot merge stubs for %s: kind %s != %s",
